@@ -639,7 +639,8 @@ example : entryPaths "/".toList "/a".toList = .ok ("/".toList, [], p ["a"]) ∧ 
     pathStr "/".toList (p ["a"]) = "//a".toList := by decide
 example : entryOptionsError (exArgs.flags true) = none := by decide
 example : (exArgs.scanOptions.map fun o => (o.excludeExternal, o.levelLimit)) = some (true, none) := by decide
-example : (({ exclusions := [] } : EntryArgs).scanOptions.isNone) = true := by decide
+/-- since the repair c0bb7ac (F-C08a) `exclusions=()` alone is a configuration: nothing is excluded -/
+example : (({ exclusions := [] } : EntryArgs).scanOptions.map (·.exclusions)) = some (.regexes []) := rfl
 set_option maxRecDepth 40000 in
 /-- the module-object entry point on the example: the sub-scan of `a` (6 nodes, 1 import inside `proj.a`) -/
 example : (scanForModuleObjects noRe exFs ⟨"/r/proj/__init__.py".toList⟩ ⟨"/r/proj/a/x.py".toList⟩ exArgs).toOption.map
@@ -651,8 +652,9 @@ example : errorOf (scanForModuleObjects noRe exFs ⟨"/r/proj/__init__.py".toLis
     { regexExclusions := some ["x".toList] }) = some (.kind .improperlyConfigured) := by decide
 example : errorOf (scanForModuleObjects noRe exFs ⟨"/r/proj/a/__init__.py".toList⟩ ⟨"/r/proj/__init__.py".toList⟩ exArgs)
     = some (.kind .lookupError) := by decide
+/-- `exclusions=()` without `regex_exclusions`: no error any more (it was `.typeError` before the repair c0bb7ac) -/
 example : errorOf (scanForModuleObjects noRe exFs ⟨"/r/proj/__init__.py".toList⟩ ⟨"/r/proj/a/__init__.py".toList⟩
-    { exclusions := [] }) = some .typeError := by decide
+    { exclusions := [] }) = none := by decide
 
 end entryExamples
 
